@@ -461,6 +461,9 @@ theorem specCmd_runCmd (c : ShCase) (cmd : ShCmd) (pieces p1 p2 : List Nat) (hc 
   have hw0 : s0.writes = [] := by subst hs0; rfl
   unfold specCmd
   simp only
+  by_cases hdom : containsSub (prompt c) (Tty.cook cmd.out) = true
+  · rw [if_pos hdom]
+  rw [if_neg hdom]
   by_cases hf : forbidden (blacklist c) (lineOf cmd ++ [Tty.CR]) = true
   · -- rejected
     rw [if_pos hf]
